@@ -59,6 +59,79 @@ theorem stop_not_lost {s : St} (h : Reach s) (hstop : 0 < s.stops ∨ ∃ t, s.u
     s.stop = true ∨ 0 < s.runs :=
   kept_reach h hstop
 
+/-! ### at most the step in progress -/
+
+def beginsRun (s s' : St) : Prop := s.d = .wantStep true ∧ s'.d = .inStep true
+
+instance (s s' : St) : Decidable (beginsRun s s') := by unfold beginsRun; exact inferInstance
+
+def DPc.runCanBegin : DPc → Nat
+  | .wantStep true => 1
+  | _ => 0
+
+theorem runCanBegin_step {s s' : St} {b : Bool} (hs : s.stop = true) (tr : Tr s b s') :
+    s'.d.runCanBegin + (if beginsRun s s' then 1 else 0) ≤ s.d.runCanBegin := by
+  have same : ∀ {x : St}, x.d = s.d → x.d.runCanBegin + (if beginsRun s x then 1 else 0) ≤ s.d.runCanBegin := by
+    intro x hd
+    have : ¬ beginsRun s x := by rintro ⟨h1, h2⟩; rw [hd, h1] at h2; cases h2
+    rw [if_neg this, hd]; omega
+  cases tr with
+  | dRunEnter hd => simp [beginsRun, DPc.runCanBegin, hd]
+  | dRunExit hd _ => simp [beginsRun, DPc.runCanBegin, hd]
+  | dRunGo hd hf => rw [hs] at hf; cases hf
+  | dStepEnter hd => simp [beginsRun, DPc.runCanBegin, hd]
+  | dLockStep hd hst =>
+    rename_i r
+    cases r with
+    | true =>
+      have hb : beginsRun s { s with step := .drv, d := .inStep true } := ⟨hd, rfl⟩
+      simp [hb, DPc.runCanBegin, hd]
+    | false => simp [beginsRun, DPc.runCanBegin, hd]
+  | dToPoll hd => rename_i r; cases r <;> simp [beginsRun, DPc.runCanBegin, hd]
+  | dPollPipe hd hp => rename_i r; cases r <;> simp [beginsRun, DPc.runCanBegin, hd]
+  | dPollOther hd hp => rename_i r; cases r <;> simp [beginsRun, DPc.runCanBegin, hd]
+  | dUnlockStep hd => rename_i r; cases r <;> simp [beginsRun, DPc.runCanBegin, hd]
+  | dLockPause hd hp => rename_i r; cases r <;> simp [beginsRun, DPc.runCanBegin, hd]
+  | dUnlockPause hd => rename_i r; cases r <;> simp [beginsRun, DPc.runCanBegin, hd]
+  | dStop => exact same rfl
+  | uTryOk _ _ => exact same rfl
+  | uTryFail _ _ => exact same rfl
+  | uLockPause _ _ => exact same rfl
+  | uBump _ => exact same rfl
+  | uLockStep _ _ => exact same rfl
+  | uRelPause _ => exact same rfl
+  | uUnlock _ => exact same rfl
+  | uStopSet _ => exact same rfl
+  | uStopBump _ => exact same rfl
+
+inductive Path : St → List St → Prop where
+  | nil (s) : Path s []
+  | cons {s s' b rest} : Tr s b s' → Path s' rest → Path s (s' :: rest)
+
+def countRunBegins : St → List St → Nat
+  | _, [] => 0
+  | s, s' :: rest => (if beginsRun s s' then 1 else 0) + countRunBegins s' rest
+
+/-- "makes the Run() in progress ... return after at most the step in progress, however the call
+interleaves with the driver loop": along EVERY execution fragment during which the stop flag is up
+(i.e. from the flag store of a Stop until some `Run` consumes it), `Run` begins AT MOST ONE step; and
+by `stop_wakes_run` that step's poll cannot block once the Stop has sent its datagram. -/
+theorem stop_at_most_one_step {s : St} (path : List St) (hp : Path s path)
+    (hs : s.stop = true) (hall : ∀ x ∈ path, x.stop = true) : countRunBegins s path ≤ 1 := by
+  suffices H : countRunBegins s path ≤ s.d.runCanBegin by
+    have : s.d.runCanBegin ≤ 1 := by
+      cases hd : s.d with
+      | wantStep r => cases r <;> simp [DPc.runCanBegin]
+      | _ => simp [DPc.runCanBegin]
+    omega
+  induction hp with
+  | nil s => simp [countRunBegins]
+  | @cons s0 s1 b rest tr _ ih =>
+    have h1 := runCanBegin_step hs tr
+    have := ih (hall s1 List.mem_cons_self) (fun x hx => hall x (List.mem_cons_of_mem _ hx))
+    simp only [countRunBegins]
+    omega
+
 /-! ### the shipped `Run` (finding F1): the flag is cleared on entry -/
 
 /-- reachability for the pre-fix driver: as `Reach`, plus `Run` entry clearing the flag -/
